@@ -417,11 +417,24 @@ def c08_oracle(w, netlist_idx, before, libs_before):
         names = [d.name for d in lib.definitions if d.name is not None]
         if len(names) != len(set(names)):
             bad.append('duplicate definition names in library %r' % lib.name)
-        old = libs_before.get(id(lib), set())
+        old = libs_before.get(id(lib), (set(), set(), set()))
         for d in lib.definitions:
             if id(d) not in old[0] and d.name is not None and d.name in old[1]:
                 bad.append('new definition %r reuses an existing name' % d.name)
+            if id(d) not in old[0] and 'EDIF.identifier' in d and str(d['EDIF.identifier']).lower() in old[2]:
+                bad.append('new definition %r reuses an existing EDIF identifier (without case): %r' % (d.name, d['EDIF.identifier']))
     return bad
+
+
+def snapshot_libs(n):
+    """per library: the definitions, their names and their case-folded EDIF identifiers before a transformation"""
+    return dict((id(lib), (set(id(d) for d in lib.definitions), set(d.name for d in lib.definitions),
+                           set(str(d['EDIF.identifier']).lower() for d in lib.definitions if 'EDIF.identifier' in d)))
+                for lib in n.libraries)
+
+
+def case_variant(rng, s):
+    return rng.choice([s, s.lower(), s.upper(), s.swapcase(), s.capitalize()])
 
 
 def c09_oracle(w, netlist_idx, before):
@@ -517,6 +530,12 @@ def clone_fault(w, rng, root):
 def run_case(prop, seed, case):
     """returns dict(ops, impl_dumps, fails)"""
     rng, ops, info = gen_case(prop, seed, case)
+    # C08, names already present (a second stream of random choices, so the designs themselves are unchanged):
+    # a quarter of the cases are built under the EDIF naming policy with EDIF identifiers on the cells
+    rng_names = random.Random('%d/%s/%d/names' % (seed, prop, case))
+    edif = prop == 'C08' and rng_names.random() < 0.25
+    if edif:
+        ops = [['policy', '1']] + ops
     w = World()
     dumps, fails = [], []
     hist = []
@@ -581,12 +600,54 @@ def run_case(prop, seed, case):
             x_idx = len(w.objs)
             do(['new', 'instance', netgen.tok_of_s('spare'), '0'])
             do(['setref', str(x_idx), str(rng.choice(mids))])
+        preseeded = False
+        if prop == 'C08':
+            T = netgen.tok_of_s
+            idents = {}
+            if edif or rng_names.random() < 0.15:
+                # cells carry EDIF identifiers (also met as plain data under the default policy): a case variant of the name
+                for d in info['all_defs']:
+                    if w.objs[d].name is not None and rng_names.random() < 0.7:
+                        idents[d] = case_variant(rng_names, w.objs[d].name)
+                        do(['dset', str(d), T('EDIF.identifier'), 's:' + T(idents[d])])
+            if mids and rng_names.random() < (0.7 if edif else 0.35):
+                # history before: the library already holds definitions named like the copies uniquify makes, or carrying
+                # such an identifier in another case (a netlist uniquified in an earlier process, written out and read
+                # back: the module counter is at 0 again) - "new definitions get fresh, non-colliding names"
+                preseeded = True
+                extra = 0
+                shared = [d for d in mids if len(w.objs[d].references) >= 2]   # the cells uniquify will copy
+                pool = shared if (shared and rng_names.random() < 0.8) else mids
+                for d in rng_names.sample(pool, min(len(pool), rng_names.choice([1, 1, 2]))):
+                    dn = w.objs[d].name
+                    lib_idx = w.index[id(w.objs[d].library)]
+                    others = [l for l in info['libs'] if l != lib_idx]
+                    if others and rng_names.random() < 0.3:
+                        lib_idx = rng_names.choice(others)      # the same names in another library block nothing
+                    for k in sorted(rng_names.sample(range(4), rng_names.choice([1, 2, 3, 4]))):
+                        by_ident = d in idents and rng_names.random() < 0.5
+                        name = ('seeded%d' % extra) if by_ident else '%s_sdn_unique_%d' % (dn, k)
+                        extra += 1
+                        op = ['create', 'defs', str(lib_idx), T(name)]
+                        if by_ident:
+                            op += ['1', T('EDIF.identifier'), 's:' + T(case_variant(rng_names, '%s_sdn_unique_%d' % (idents[d], k)))]
+                        elif d in idents and rng_names.random() < 0.5:
+                            op += ['1', T('EDIF.identifier'), 's:' + T('seeded_id%d' % extra)]
+                        else:
+                            op += ['0']
+                        if do(op + ['0', '~']) != 'ok':
+                            fails.append({'step': len(hist) - 1, 'oracle': 'builder', 'failures': ['pre-seeded definition refused']})
+                            return dict(ops=hist, dumps=dumps, fails=fails, kind='builder')
         before = elab.elaborate(n)
-        libs_before = dict((id(lib), (set(id(d) for d in lib.definitions), set(d.name for d in lib.definitions))) for lib in n.libraries)
+        libs_before = snapshot_libs(n)
+        ndefs_before = sum(len(lib.definitions) for lib in n.libraries)
         out = do(['uniquify', str(nl), FUEL])
         if out != 'ok':
             fails.append({'step': len(hist) - 1, 'oracle': 'Uniquify', 'failures': ['uniquify raised (%s)' % out]})
             return dict(ops=hist, dumps=dumps, fails=fails, kind='uniq')
+        # measured: how many candidate suffixes the run had to skip because the library already used them
+        import spydrnet.uniquify as _U
+        skipped = _U.MOD_NAME_UID - (sum(len(lib.definitions) for lib in n.libraries) - ndefs_before)
         if prop == 'C08':
             bad = c08_oracle(w, nl, before, libs_before)
             if not bad and mids and rng.random() < 0.5:
@@ -615,7 +676,7 @@ def run_case(prop, seed, case):
                 if not placed:
                     do(['create', 'children', str(info['top_def']), netgen.tok_of_s('again'), '0', '0', str(rng.choice(mids))])
                 before = elab.elaborate(n)
-                libs_before = dict((id(lib), (set(id(d) for d in lib.definitions), set(d.name for d in lib.definitions))) for lib in n.libraries)
+                libs_before = snapshot_libs(n)
                 out = do(['uniquify', str(nl), FUEL])
                 if out != 'ok':
                     bad.append('uniquify after adding an instance raised (%s)' % out)
@@ -629,7 +690,7 @@ def run_case(prop, seed, case):
                     bad.append('second uniquify changed the netlist (%s)' % out)
             if bad:
                 fails.append({'step': len(hist) - 1, 'oracle': 'Uniquify', 'failures': bad[:6]})
-            return dict(ops=hist, dumps=dumps, fails=fails, kind='depth%d' % len(info['layers']))
+            return dict(ops=hist, dumps=dumps, fails=fails, skipped=skipped, kind='depth%d%s%s' % (len(info['layers']), '-edif' if edif else '', '-preseeded' if preseeded else ''))
         if prop == 'C09' and mids and rng.random() < 0.3:
             # a child whose own name already looks like a path below its parent instance ("u1/q" inside u1)
             d = rng.choice(mids)
@@ -717,9 +778,10 @@ def run_case(prop, seed, case):
 
 
 def clash_witness():
-    """Props/C08.v, C08_name_clash_sample: library 'work' already holds 'mid_sdn_unique_0' when uniquify (counter 0)
-    has to clone 'mid'. The model says: ValueError after the clone was made; the copy stays outside every
-    library and its child is registered with the leaf cell. Run on the implementation and on the model."""
+    """Props/C08.v, C08_name_clash_repaired_sample (the repaired finding C08-uniquify-name-clash): library 'work'
+    already holds 'mid_sdn_unique_0' when uniquify (counter 0, a fresh process) has to clone 'mid'. Proved of the
+    model: the run completes, the copy takes the next free name mid_sdn_unique_1 and is added right after mid, m1
+    is re-pointed to it, no copy is left outside the library. Run on the implementation and on the model, step by step."""
     T = netgen.tok_of_s
     ops = [['new', 'netlist', '~', '0'],
            ['create', 'libs', '0', T('work'), '0', '0', '~'],
@@ -750,17 +812,56 @@ def clash_witness():
         lib = w.objs[1]
         facts = {'outcome': outs[-1], 'objects': len(w.objs),
                  'library': [d.name for d in lib.definitions],
-                 'orphan_copy': (w.objs[18].name, w.objs[18].library is None) if len(w.objs) > 18 else None,
-                 'leaf_references': len(w.objs[2].references), 'm1_reference': w.objs[12].reference.name}
+                 'copy': (w.objs[18].name, w.objs[18].library is lib) if len(w.objs) > 18 else None,
+                 'leaf_references': len(w.objs[2].references),
+                 'leaf_references_outside_library': len([x for x in w.objs[2].references if x.parent is None or x.parent.library is not lib]),
+                 'm1_reference': w.objs[12].reference.name, 'm2_reference': w.objs[13].reference.name,
+                 'counter_after': __import__('spydrnet.uniquify', fromlist=['x']).MOD_NAME_UID}
     finally:
         w.close()
     model = run_model([ops])[0]
     dis = [j for j, (a, b) in enumerate(zip(dumps, model)) if a != b]
-    expected = {'outcome': 'value', 'objects': 24, 'library': ['INV', 'mid', 'top', 'mid_sdn_unique_0'],
-                'orphan_copy': ('mid_sdn_unique_0', True), 'leaf_references': 2, 'm1_reference': 'mid'}
-    return {'ops': ops, 'facts': facts, 'as_proved': facts == expected, 'first_disagreement_step': dis[:1],
+    expected = {'outcome': 'ok', 'objects': 24, 'library': ['INV', 'mid', 'mid_sdn_unique_1', 'top', 'mid_sdn_unique_0'],
+                'copy': ('mid_sdn_unique_1', True), 'leaf_references': 2, 'leaf_references_outside_library': 0,
+                'm1_reference': 'mid_sdn_unique_1', 'm2_reference': 'mid', 'counter_after': 2}
+    return {'ops': ops, 'facts': facts, 'expected': expected, 'as_proved': facts == expected, 'first_disagreement_step': dis[:1],
             'model_steps': len(model), 'impl_steps': len(dumps)}
 
+
+
+def unnamed_identifier_witness():
+    """Props/C08.v, C08_unnamed_cell_with_identifier_sample: a cell with an EDIF identifier but no name, under the EDIF
+    policy, instantiated twice. _make_instance_unique renames the copy only when the cell has a name, so the copy keeps
+    the identifier and add_definition refuses it: ValueError half-way (independent of the suffix counter). Replayed on
+    the implementation and on the model step by step; the outcome is recorded (suspected defect, reported separately)."""
+    T = netgen.tok_of_s
+    ops = [['policy', '1'],
+           ['new', 'netlist', T('n'), '0'],
+           ['create', 'libs', '0', T('work'), '0', '0', '~'],
+           ['create', 'defs', '1', T('LEAF'), '0', '0', '~'],
+           ['create', 'defs', '1', '~', '1', T('EDIF.identifier'), 's:' + T('mid'), '0', '~'],
+           ['create', 'children', '3', T('u'), '0', '0', '2'],
+           ['create', 'defs', '1', T('top'), '0', '0', '~'],
+           ['create', 'children', '5', T('a'), '0', '0', '3'],
+           ['create', 'children', '5', T('b'), '0', '0', '3'],
+           ['settop', '0', 'D5'],
+           ['uniquify', '0', FUEL]]
+    w = World()
+    dumps, outs = [], []
+    try:
+        for op in ops:
+            out = w.apply(op)
+            outs.append(out)
+            dumps.append(w.dump(out))
+        lib = w.objs[1]
+        facts = {'outcome': outs[-1], 'objects': len(w.objs), 'library': [d.name for d in lib.definitions],
+                 'copy_outside_library': (len(w.objs) > 9 and w.objs[9].library is None),
+                 'leaf_references': len(w.objs[2].references)}
+    finally:
+        w.close()
+    model = run_model([ops])[0]
+    dis = [j for j, (a, b) in enumerate(zip(dumps, model)) if a != b]
+    return {'ops': ops, 'facts': facts, 'first_disagreement_step': dis[:1], 'model_steps': len(model), 'impl_steps': len(dumps)}
 
 
 QUICK = {'C07': 120, 'C08': 120, 'C09': 120}
@@ -858,19 +959,34 @@ def run(prop, tier, seed, replay):
     witness = None
     if prop == 'C08':
         witness = clash_witness()
-        if witness['first_disagreement_step'] or witness['model_steps'] != witness['impl_steps']:
+        if not witness['as_proved'] and witness['facts'].get('outcome') != 'ok':
+            # the implementation stops half-way: "new definitions get fresh, non-colliding names" fails on this input
+            rep.violation('clash-witness', {'kind': 'property-violation-on-implementation', 'engine': 'xform',
+                                            'what': 'uniquify does not complete on a netlist whose library already holds the name it '
+                                                    'generates first (mid_sdn_unique_0): ' + str(witness['facts'].get('outcome')),
+                                            'ops': [' '.join(o) for o in witness['ops']], 'facts': witness['facts'],
+                                            'expected': witness['expected'], 'witness_script': 'corpus/py/c08-uniquify-name-clash.py'})
+        elif not witness['as_proved']:
+            rep.violation('clash-witness', {'kind': 'property-violation-on-implementation', 'engine': 'xform',
+                                            'what': 'uniquify completes on the name-clash witness but not with the result proved of the model '
+                                                    '(Props/C08.v, C08_name_clash_repaired_sample): next free name, copy inside the library, '
+                                                    'instance re-pointed, no stray reference',
+                                            'ops': [' '.join(o) for o in witness['ops']], 'facts': witness['facts'], 'expected': witness['expected']})
+        elif witness['first_disagreement_step'] or witness['model_steps'] != witness['impl_steps']:
             rep.violation('clash-witness', {'kind': 'correspondence-broken', 'engine': 'xform',
-                                            'what': 'the name-clash witness of Props/C08.v (C08_name_clash_sample) behaves differently on the implementation and on the model',
+                                            'what': 'the name-clash witness of Props/C08.v (C08_name_clash_repaired_sample) behaves differently on the implementation and on the model',
                                             'witness': witness}, found_input=False)
-        elif witness['facts'].get('outcome') != 'ok':
-            # the implementation refuses half-way: "new definitions get fresh, non-colliding names" fails on this input
-            kf = [k for k in known if k.get('status') == 'open' and k.get('signature') == 'uniquify-name-clash']
+    unnamed = None
+    if prop == 'C08':
+        unnamed = unnamed_identifier_witness()
+        if unnamed['first_disagreement_step'] or unnamed['model_steps'] != unnamed['impl_steps']:
+            rep.violation('unnamed-identifier-witness', {'kind': 'correspondence-broken', 'engine': 'xform',
+                                                         'what': 'the unnamed-cell witness of Props/C08.v (C08_unnamed_cell_with_identifier_sample) behaves differently on the implementation and on the model',
+                                                         'witness': unnamed}, found_input=False)
+        elif unnamed['facts'].get('outcome') != 'ok':
+            kf = [k for k in known if k.get('status') == 'open' and k.get('signature') == 'uniquify-unnamed-identifier']
             if kf:
                 rep.known_finding('%s: %s' % (kf[0].get('id'), kf[0].get('what')))
-            else:
-                rep.violation('clash-witness', {'kind': 'property-violation-on-implementation', 'engine': 'xform',
-                                                'what': 'uniquify does not complete on a netlist whose library already holds the name it generates',
-                                                'ops': [' '.join(o) for o in witness['ops']], 'facts': witness['facts']})
     wall = time.time() - t0
     theorems = proof['theorems']
     coverage = {
@@ -892,6 +1008,10 @@ def run(prop, tier, seed, replay):
         'empty_or_missing_name_histogram': dict(shapes),
         'model_impl_disagreements': n_dis, 'oracle_failures': n_or, 'known_finding_hits': n_known,
         'name_clash_witness': witness,
+        'unnamed_identifier_witness': unnamed,
+        'cases_with_preseeded_names': sum(1 for r in results if 'preseeded' in r['kind']),
+        'cases_where_uniquify_skipped_a_used_suffix': sum(1 for r in results if r.get('skipped', 0) > 0),
+        'suffixes_skipped_total': sum(max(0, r.get('skipped', 0)) for r in results),
         'exhaustive': False,
     }
     common.write_evidence(prop, tier, seed, coverage, wall, len(rep.violations),
